@@ -13,10 +13,19 @@ Histories on ONE Weibull object (loc / scale / shape re-assigned between calls o
 numeric option in several spellings (n and statsdur as float / int / numpy scalar), and the qats.app.funcs wrapper called with the
 flag by keyword, positionally, all by keyword and omitted.
 
+FAULT POINTS: rejected calls of every kind the entry points can reject (a quantile / duration of the wrong type, a window outside
+the record or not a pair, an unknown / incomplete filter, an unknown keyword or estimator, a name matching nothing or several series,
+a foreign item in the GUI container, Weibull parameters / n / arguments outside the domain) are inserted into these histories — on
+the same series, database, container and distribution objects — and all clauses are evaluated afterwards on the SAME objects
+against summaries of fresh objects built from the caller's arrays; the caller's arrays must be unchanged. Every case runs in a
+worker thread with a time limit: a query that does not return is a failing clause.
+
 Every generated case is a self-contained JSON dict (`kind` = w2g / fit / summary) that `replay()` re-evaluates.
 """
 import math
 import random
+import threading
+import warnings
 
 import numpy as np
 
@@ -35,8 +44,192 @@ RULE = ("seeded Weibull parameters (loc in [-20,20], scale log-uniform, shape in
         "tied maxima; time step constant / two rates / seeded unequal steps / a gap) x affine maps with a = 2^k, b integer x windows / low-pass filter / resampling to a new step or time array (and combinations) x maxima / minima x durations x 2-4 "
         "quantiles listed in ANY order (tuple / list / ndarray) x a preceding different query on the same object; database fan-out on 2-4 series sharing one time array, added and requested in "
         "seeded orders, maxima and minima variants queried in turn on the same database (dict and dataframe); "
+        "FAULT POINTS: 0-3 rejected calls per summary case on the same series before / between its queries (quantiles a number / None / "
+        "text, duration None / text, window beyond the record / reversed / a scalar, filter unknown / incomplete / text / above Nyquist, "
+        "resample int / text, unknown keyword, unknown estimator; with and without the case's own options; maxima and minima), on the "
+        "database between its queries (same options, names matching nothing / several / partly unknown, index out of range) and on the "
+        "GUI container (foreign item, bad window / filter); rejected calls on the Weibull object / module inside the parameter histories "
+        "(n as text, default n without sample, density below loc, probability above 1, unknown estimator, shape as text, negative "
+        "scale); windows as tuple / list / ndarray, filter arguments as tuple / list; every case in a worker thread with a time limit; "
         "non-trivial = every case; distinct by input")
 QPOOL = [0.0, 0.05, 0.1, 0.37, 0.5, 0.57, 0.9, 0.95, 0.99]
+
+# ---- worker thread with a time limit -------------------------------------------------------------------------------------------------
+CASE_LIMIT = 20.0                                       # seconds (a case normally takes 0.01 - 1 s)
+PROGRESS = {"call": None}                               # the call of the current case that was started last
+HANGS = {"n": 0}
+
+
+def at(label):
+    PROGRESS["call"] = label
+
+
+def guarded(fn, limit=CASE_LIMIT):
+    """run fn() in a worker thread: ("ok", value) / ("raised", exception) / ("hang", label of the call started last)"""
+    box = {}
+
+    def work():
+        try:
+            with warnings.catch_warnings():
+                box["v"] = fn()
+        except BaseException as e:                      # noqa
+            box["e"] = e
+    PROGRESS["call"] = None
+    th = threading.Thread(target=work, daemon=True)
+    th.start()
+    th.join(limit)
+    if th.is_alive():
+        HANGS["n"] += 1
+        return "hang", PROGRESS["call"]
+    if "e" in box:
+        return "raised", box["e"]
+    return "ok", box["v"]
+
+
+RETURNS = "every query returns (also after a call on the same objects / module was rejected)"
+
+
+# ---- fault points: calls the entry points reject -------------------------------------------------------------------------------------
+# options of TimeSeries.stats / TsDB.stats that are rejected (or, for a few, accepted with a degenerate answer): by name
+BAD_STATS = ("quantiles-number", "quantiles-none", "quantiles-text", "quantiles-above-one", "statsdur-none", "statsdur-text",
+             "twin-beyond", "twin-reversed", "twin-scalar", "filter-unknown", "filter-short", "filter-text", "filter-above-nyquist",
+             "resample-int", "resample-text", "unknown-keyword")
+BAD_TS_OTHER = ("fit_weibull:method-unknown", "fit_weibull:twin-beyond", "get:twin-scalar", "get:filter-unknown", "max:twin-scalar",
+                "min:filter-short")
+BAD_DB = ("names-nomatch", "names-ambiguous", "names-partly-unknown", "ind-out-of-range")
+BAD_GUI = ("container-foreign-item", "twin-scalar", "filter-unknown", "filter-short", "twin-beyond")
+BAD_WEIBULL = ("n-text", "n-default-without-sample", "pdf-below-loc", "invcdf-above-one", "fit-method-unknown", "w2g-shape-text",
+               "gumbel-scale-negative", "scale-negative-then-restored", "fromsignal-no-maxima")
+
+
+def bad_options(bad, t):
+    """the rejected option(s) `bad` as keyword arguments of TimeSeries.stats / .get for a series with time array t"""
+    t0, t1 = float(t[0]), float(t[-1])
+    return {"quantiles-number": dict(quantiles=0.9), "quantiles-none": dict(quantiles=None),
+            "quantiles-text": dict(quantiles=(0.5, "0.9")), "quantiles-above-one": dict(quantiles=(0.5, 1.5)),
+            "statsdur-none": dict(statsdur=None), "statsdur-text": dict(statsdur="3h"),
+            "twin-beyond": dict(twin=(t1 + 10., t1 + 20.)), "twin-reversed": dict(twin=(t1, t0)),
+            "twin-scalar": dict(twin=0.5 * (t0 + t1)), "filter-unknown": dict(filterargs=("xx", 0.2)),
+            "filter-short": dict(filterargs=("lp",)), "filter-text": dict(filterargs="lp"),
+            "filter-above-nyquist": dict(filterargs=("lp", 50.)), "resample-int": dict(resample=1),
+            "resample-text": dict(resample="0.5"), "unknown-keyword": dict(smoothing=3),
+            "method-unknown": dict(method="nope")}[bad]
+
+
+def attempt(dist, label, fn):
+    """a call that the implementation is expected to reject; whether it raises or returns is not a clause of the property (only
+    recorded in the input distribution) — what the property says about the objects afterwards is evaluated by the caller"""
+    at("rejected call: " + label)
+    try:
+        with np.errstate(all="ignore"), warnings.catch_warnings():
+            warnings.simplefilter("ignore")
+            fn()
+        how = "returned"
+    except Exception:
+        how = "rejected"
+    if dist:
+        dist("fault:%s:%s" % (label.split(" ")[0], how))
+    return how
+
+
+def ts_faults(faults, where, o, t, kw, dist=None):
+    """the rejected calls of the case listed for position `where`, made on the TimeSeries object o (the case's own window /
+    filter / resampling options are passed along when the fault says so)"""
+    for ft in faults or []:
+        if ft.get("at") != where or ft.get("on", "ts") != "ts":
+            continue
+        bad, flag = ft["bad"], bool(ft.get("flag"))
+        own = dict(kw) if ft.get("with_kw") else {}
+        if ":" in bad:
+            entry, b = bad.split(":")
+            opts = dict(own, **bad_options(b, t))
+            if entry == "fit_weibull":
+                opts = {k: v for k, v in opts.items() if k in ("twin", "method")}
+            attempt(dist, "TimeSeries.%s:%s" % (entry, b), lambda: getattr(o, entry)(**opts))
+        else:
+            opts = dict(dict(statsdur=3600., quantiles=(0.37, 0.9)), **dict(own, **bad_options(bad, t)))
+            attempt(dist, "TimeSeries.stats:%s %s%s" % (bad, "minima" if flag else "maxima", " +options" if own else ""),
+                    lambda: o.stats(is_minima=flag, include_sample=bool(ft.get("sample")), **opts))
+
+
+def db_faults(faults, db, names, t, kw, dist=None):
+    """rejected calls on a database holding several series (rejected before the fan-out or part-way through it)"""
+    for ft in faults or []:
+        if ft.get("on") != "db":
+            continue
+        bad, flag = ft["bad"], bool(ft.get("flag"))
+        fn = db.stats_dataframe if ft.get("dataframe") else db.stats
+        if bad == "names-nomatch":
+            call = lambda: fn(names="nosuch*", is_minima=flag)
+        elif bad == "names-ambiguous":
+            call = lambda: db.get(name="s*")
+        elif bad == "names-partly-unknown":
+            call = lambda: fn(names=[names[0], "nosuch"], quantiles=0.5, is_minima=flag)
+        elif bad == "ind-out-of-range":
+            call = lambda: fn(ind=[0, 99], is_minima=flag)
+        else:
+            own = dict(kw) if ft.get("with_kw") else {}
+            opts = dict(dict(statsdur=3600., quantiles=(0.37, 0.9)), **dict(own, **bad_options(bad, t)))
+            call = lambda: fn(names=(names if ft.get("listed") else None), is_minima=flag, **opts)
+        attempt(dist, "TsDB.stats:%s %s" % (bad, "minima" if flag else "maxima"), call)
+
+
+def gui_faults(faults, cont, t, twin, fargs, dist=None):
+    from qats.app.funcs import calculate_stats
+    for ft in faults or []:
+        if ft.get("on") != "gui":
+            continue
+        bad, flag = ft["bad"], bool(ft.get("flag"))
+        if bad == "container-foreign-item":
+            c2 = dict(cont, zz=None)                    # the last item is not a series: rejected part-way through the container
+            call = lambda: calculate_stats(c2, twin if ft.get("with_kw") else None, fargs if ft.get("with_kw") else None, flag)
+        elif bad.startswith("twin"):
+            call = lambda: calculate_stats(cont, bad_options(bad, t)["twin"], fargs, flag)
+        else:
+            call = lambda: calculate_stats(cont, twin, bad_options(bad, t)["filterargs"], flag)
+        attempt(dist, "calculate_stats:%s %s" % (bad, "minima" if flag else "maxima"), call)
+
+
+def weibull_fault(bad, w, dist=None):
+    """a rejected call on the Weibull object w / the module's functions with its parameters"""
+    from qats.stats import weibull as wb
+    from qats.stats.gumbel import Gumbel
+    loc, scale, shape = [float(v) for v in w.params]
+
+    def neg_scale():
+        w.scale = -scale
+        try:
+            w.cdf(x=[loc + 1.0])
+            w.pdf(x=[loc - 1.0])
+        finally:
+            w.scale = scale                             # (the harness restores the parameter it set)
+    call = {"n-text": lambda: w.gumbel_parameters(n="100"),
+            "n-default-without-sample": lambda: wb.Weibull(loc, scale, shape).gumbel_parameters(),
+            "pdf-below-loc": lambda: w.pdf(x=[loc - 1.0]),
+            "invcdf-above-one": lambda: w.invcdf(p=[0.5, 1.5]),
+            "fit-method-unknown": lambda: wb.Weibull.fit([1.0, 2.0, 3.0, 5.0], method="nope"),
+            "w2g-shape-text": lambda: wb.weibull2gumbel(loc, scale, "2", 100),
+            "gumbel-scale-negative": lambda: Gumbel.fit_from_weibull_parameters(loc, -scale, shape, 100),
+            "scale-negative-then-restored": neg_scale,
+            "fromsignal-no-maxima": lambda: wb.Weibull.fromsignal(np.array([1.0, 1.0, 1.0]), method="pwm")}[bad]
+    attempt(dist, "Weibull:" + bad, call)
+
+
+def gen_faults(rng, fanout):
+    """0-3 rejected calls for a summary case: on the series (before the case's query or between its queries), on the database and
+    on the GUI container (cases with fan-out)"""
+    faults = []
+    if rng.random() < 0.75:
+        for _ in range(rng.choice([1, 1, 2, 3])):
+            bad = rng.choice(BAD_STATS + BAD_STATS + BAD_TS_OTHER)
+            faults.append(dict(on="ts", at=rng.choice(["before", "before", "mid"]), bad=bad, flag=rng.random() < 0.5,
+                               with_kw=rng.random() < 0.4, sample=rng.random() < 0.3))
+    if fanout:
+        for _ in range(rng.choice([1, 2])):
+            faults.append(dict(on="db", bad=rng.choice(BAD_STATS + BAD_DB), flag=rng.random() < 0.5, with_kw=rng.random() < 0.3,
+                               listed=rng.random() < 0.5, dataframe=rng.random() < 0.3))
+        faults.append(dict(on="gui", bad=rng.choice(BAD_GUI), flag=rng.random() < 0.5, with_kw=rng.random() < 0.5))
+    return faults
 
 
 TMODES = ("uniform", "two-rate", "jitter", "gap")
@@ -117,7 +310,7 @@ def fit_data(inp):
     return data
 
 
-def fit_clauses(inp):
+def fit_clauses(inp, dist=None):
     """failing clauses [(oracle, expected, observed)] of the entry point 'distribution fitted to a sample of n peaks'"""
     from qats.stats import weibull as wb
     data = fit_data(inp)
@@ -134,11 +327,19 @@ def fit_clauses(inp):
         return []
     fails = []
     arg = data.tolist() if inp.get("aslist") else data.copy()
+    flt = list(inp.get("faults") or [])
     try:
+        at("Weibull.fit(sample)")
         wf = wb.Weibull.fit(arg, method=inp["method"])
         g_got_def0 = wf.gumbel_parameters()
+        for bad in flt[:1]:                             # a rejected call on the fitted object / the module in between
+            weibull_fault(bad, wf, dist)
+        at("Weibull.gumbel_parameters on the fitted object")
         g_got = wf.gumbel_parameters(n=nn)
         g_got_def = wf.gumbel_parameters()              # the default must not remember the explicit n
+        for bad in flt[1:]:
+            weibull_fault(bad, wf, dist)
+        at("Weibull.fit(sample), same sample object again")
         wf2 = wb.Weibull.fit(arg, method=inp["method"])  # same sample object again
         obs = dict(params=fl(wf.params), params_again=fl(wf2.params), held=int(np.size(wf.data)))
     except Exception as e:
@@ -149,6 +350,10 @@ def fit_clauses(inp):
     if not (allclose(g_exp, g_got, 1e-12) and allclose(g_def, g_got_def, 1e-12) and allclose(g_def, g_got_def0, 1e-12)):
         fails.append(("the three entry points give identical Gumbel parameters (fitted distribution: explicit n honoured, default "
                       "n = sample size)", fl(g_exp + g_def), fl(g_got + g_got_def + g_got_def0)))
+    if not (np.array_equal(np.asarray(arg, dtype=float), data) and np.array_equal(np.asarray(wf.data, dtype=float).ravel(), data)):
+        fails.append(("the peaks handed to Weibull.fit — the caller's sample and the sample held by the fitted object — are the same "
+                      "after the queries (the chain is evaluated on the peaks given)", fl(data[:5]),
+                      dict(caller=fl(np.asarray(arg, dtype=float)[:5]), held=fl(np.asarray(wf.data, dtype=float).ravel()[:5]))))
     # history on the SAME fitted object: its public parameters are re-assigned (peaks mapped by y = a*x + b, a > 0, and / or a
     # new shape) and the Gumbel parameters asked again for the same n and the default n
     for k, st in enumerate(inp.get("history") or []):
@@ -159,6 +364,9 @@ def fit_clauses(inp):
             e_n, e_d = wb.weibull2gumbel(*new, nn), wb.weibull2gumbel(*new, m)
             if not all(np.isfinite(fl(e_n + e_d))):
                 break
+            if st.get("fault"):
+                weibull_fault(st["fault"], wf, dist)
+            at("Weibull.gumbel_parameters on the re-parameterised fitted object")
             g_n, g_d = wf.gumbel_parameters(n=spell(nn, st.get("ntype"))), wf.gumbel_parameters()
         except Exception as e:
             fails.append(("Weibull.gumbel_parameters on a re-parameterised fitted distribution (must not raise)", "parameters", repr(e)))
@@ -183,6 +391,11 @@ def summary_kwargs(inp):
                 kw[k] = arr.tolist() if v.get("aslist") else arr
             else:
                 kw[k] = float(v)
+        elif k == "twin":
+            # the same window as tuple / list / ndarray
+            kw[k] = {"tuple": tuple, "list": list, "array": np.array}[inp.get("twtype", "tuple")]([float(u) for u in v])
+        elif k == "filterargs":
+            kw[k] = list(v) if inp.get("ftype") == "list" else tuple(v)
         else:
             kw[k] = tuple(v) if isinstance(v, (list, tuple)) else v
     return kw
@@ -232,6 +445,10 @@ def db_clauses(inp, t, x, kw, quant, qlist, dist=None):
     for step, flag in enumerate((ismin, not ismin, ismin)):
         entry = "TsDB.stats_dataframe" if step == 2 else "TsDB.stats"
         common = dict(statsdur=statsdur, quantiles=quant, is_minima=flag, **kw)
+        if step == 1:
+            # fault points: calls the database rejects (before or part-way through the fan-out); the same database is used again
+            db_faults(inp.get("faults"), db, wanted, t, kw, dist)
+        at("%s on %d series (%s), query %d on the same database" % (entry, len(wanted), "minima" if flag else "maxima", step + 1))
         try:
             d = (db.stats_dataframe if step == 2 else db.stats)(names=req, **common)
             got = {nm: {f: d[nm][f] for f in fields + ["is_minima"]} for nm in wanted if nm in d}
@@ -272,7 +489,7 @@ def db_clauses(inp, t, x, kw, quant, qlist, dist=None):
 GUI_FIELDS = STAT_FIELDS + ("p_37.00", "p_57.00", "p_90.00")
 
 
-def gui_clauses(ts, tsneg, twin, fargs, ismin, dist=None):
+def gui_clauses(ts, tsneg, twin, fargs, ismin, dist=None, faults=None):
     """failing clauses of the application's wrappers qats.app.funcs.calculate_stats(container, twin, fargs, minima) on a
     container of two series (a signal and its negation), called in every convention the signature documents — flag by keyword,
     flag as fourth positional argument, everything by keyword, flag omitted (= maxima): each call is the entry point
@@ -290,9 +507,11 @@ def gui_clauses(ts, tsneg, twin, fargs, ismin, dist=None):
              ("all arguments by keyword", not ismin, lambda: calculate_stats(container=cont, twin=twin, fargs=fargs, minima=not ismin)),
              ("flag omitted", False, lambda: calculate_stats(cont, twin, fargs))]
     got = {}
+    gui_faults(faults, cont, ts.t, twin, fargs, dist)
     for how, flag, call in calls:
         if dist:
             dist("gui:calculate_stats:%s" % how)
+        at("app.funcs.calculate_stats, %s, %s" % (how, "minima" if flag else "maxima"))
         try:
             g = call()
             bad = {}
@@ -351,15 +570,33 @@ def summary_clauses(inp, dist=None):
     quant = summary_quantiles(inp)
     sign = -1.0 if ismin else 1.0
     ts = TimeSeries("s", t, x)
+    faults = inp.get("faults")
+    t_given, x_given = t.copy(), x.copy()               # what the caller handed over
     try:
         if inp.get("prior"):
             # history: a different query on the same object first
+            at("TimeSeries.stats (a different query first)")
             ts.stats(statsdur=3600. if sdv != 3600. else 1000., quantiles=(0.5, 0.1), is_minima=not ismin,
                      twin=(float(t[n // 4]), float(t[-1])))
+        # fault points: calls on the same object that are rejected (invalid option, window outside the record, unknown filter …)
+        ts_faults(faults, "before", ts, t, kw, dist)
+        at("TimeSeries.stats (the case's query)")
         s = ts.stats(statsdur=statsdur, quantiles=quant, is_minima=ismin, include_sample=True, **kw)
         tt, xx = ts.get(**kw)
     except Exception as e:
         return [("TimeSeries.stats is an entry point of the chain (must not raise)", {}, "summary", repr(e))]
+    # its parts, taken from the arrays the series was built from (no processing / a window only: the samples inside the window)
+    if "resample" not in kw and "filterargs" not in kw:
+        tw = kw.get("twin", (t_given[0], t_given[-1]))
+        msk = (t_given >= tw[0]) & (t_given <= tw[1])
+        tg, xg = t_given[msk], x_given[msk]
+        okg = (s["start"] == tg[0] and s["end"] == tg[-1] and s["min"] == xg.min() and s["max"] == xg.max() and
+               abs(float(s["mean"]) - float(xg.mean())) <= 1e-12 * float(np.abs(xg).max() + 1.0))
+        if not okg:
+            fails.append(("summary consistent with its parts: start / end / min / mean / max are those of the signal the series was "
+                          "built from (inside the window)", {},
+                          dict(start=float(tg[0]), end=float(tg[-1]), min=float(xg.min()), mean=float(xg.mean()), max=float(xg.max())),
+                          {a: float(s[a]) for a in ("start", "end", "min", "mean", "max")}))
     # consistency with its parts: the summary describes the processed series (tt, xx) = get(**kwargs) — windowed, resampled,
     # filtered — whatever the sampling of the stored series
     nt = int(np.size(tt))
@@ -417,6 +654,8 @@ def summary_clauses(inp, dist=None):
                 fails.append(("reported gloc is the 1-1/n quantile of the reported Weibull and gscale == 1/(n * density there)", {},
                               [q1, 1 / (nn * f1)], [float(s["gloc"]), float(s["gscale"])]))
     # entry points on the same (possibly tied) peaks: fitted distribution from the signal, and the summary with statsdur = duration
+    ts_faults(faults, "mid", ts, t, kw, dist)           # (fault points between the queries on the same object)
+    at("fitted-distribution entry points / TimeSeries.stats with statsdur = duration on the same object")
     if all(np.isfinite(wpar)):
         try:
             ws = [("Weibull.fromsignal", Weibull.fromsignal(sign * xx, method="pwm"))]
@@ -438,6 +677,7 @@ def summary_clauses(inp, dist=None):
         except Exception as e:
             fails.append(("fitted-distribution entry points of the chain must not raise", {}, "parameters", repr(e)))
     # affine equivariance (exact map)
+    at("TimeSeries.stats of the affine image / the negated signal (fresh objects)")
     a, b = inp["a"], inp["b"]
     kw2 = {} if "filterargs" in kw else kw
     s2 = TimeSeries("s", t, a * x + b).stats(statsdur=statsdur, quantiles=quant, is_minima=ismin, include_sample=True, **kw2)
@@ -486,7 +726,7 @@ def summary_clauses(inp, dist=None):
             if badn:
                 fails.append(("app.funcs.calculate_stats equals TimeSeries.stats with the GUI defaults", {},
                               {nm: float(ref[nm]) for nm in badn}, {nm: float(g[nm]) for nm in badn}))
-            fails += gui_clauses(ts, TimeSeries("s_neg", t, -x), twin, fargs, ismin, dist)
+            fails += gui_clauses(ts, TimeSeries("s_neg", t, -x), twin, fargs, ismin, dist, inp.get("faults"))
             # GUI defaults obey the chain as well
             if all(np.isfinite([float(g[nm]) for nm in names])) and np.size(g["sample"]) >= 2:
                 ng = round(10800. / (g["end"] - g["start"]) * np.size(g["sample"]))
@@ -498,6 +738,17 @@ def summary_clauses(inp, dist=None):
                                   "parameters and n", {}, [float(gl), float(gs)] + exp, [float(g["gloc"]), float(g["gscale"])] + got))
         except Exception as e:
             fails.append(("TsDB.stats / calculate_stats are entry points of the chain (must not raise)", {}, "summary", repr(e)))
+    # the arrays of the caller and of the series after all queries (rejected ones included): later summaries describe the same signal
+    changed = [nm for nm, u, v in (("signal array given", x, x_given), ("time array given", t, t_given),
+                                   ("signal held by the series", ts.x, x_given), ("time held by the series", ts.t, t_given),
+                                   ("quantiles given", np.asarray(quant, dtype=float), np.array(qlist)))
+               if not np.array_equal(np.asarray(u), v)]
+    rs = (inp.get("kwargs") or {}).get("resample")
+    if isinstance(rs, dict) and not np.array_equal(np.asarray(kw["resample"], dtype=float), np.linspace(*rs["linspace"])):
+        changed.append("resampling times given")
+    if changed:
+        fails.append(("the summary describes the signal given: the caller's arrays and the series' own arrays are the same after the "
+                      "queries (rejected calls included)", {}, "unchanged", changed))
     return fails
 
 
@@ -532,7 +783,9 @@ def gen_summary(rng, fanout, seed):
                 level=rng.choice([0.0, -5.0, 3.0]),           # also signals at a negative level
                 kwargs=kw, statsdur=rng.choice([10800., 3600., 1000.]), sdtype=rng.choice(SD_TYPES), quantiles=quant,
                 qtype=rng.choice(["tuple", "tuple", "list", "array"]), is_minima=rng.random() < 0.4,
-                a=rng.choice([0.5, 2.0, 4.0]), b=float(rng.randint(-8, 8)), prior=rng.random() < 0.4, fanout=fanout, verif_seed=seed)
+                a=rng.choice([0.5, 2.0, 4.0]), b=float(rng.randint(-8, 8)), prior=rng.random() < 0.4, fanout=fanout, verif_seed=seed,
+                twtype=rng.choice(["tuple", "tuple", "list", "array"]), ftype=rng.choice(["tuple", "list"]),
+                faults=gen_faults(rng, fanout))
 
 
 # ---- Weibull -> Gumbel formulas ------------------------------------------------------------------------------------------------------
@@ -550,7 +803,7 @@ def chain_clauses(w, g, n, where=""):
     return fails
 
 
-def w2g_clauses(inp):
+def w2g_clauses(inp, dist=None):
     from qats.stats.weibull import Weibull, weibull2gumbel
     from qats.stats.gumbel import Gumbel
     loc, scale, shape, n = inp["loc"], inp["scale"], inp["shape"], inp["n"]
@@ -572,6 +825,9 @@ def w2g_clauses(inp):
         cur, nk = fl(w.params), float(st.get("n", n))
         where = " (history step %d on one object: %s re-assigned, n = %r, now loc, scale, shape = %r)" % (
             k + 1, "+".join(sorted(st.get("set", {}))) or "nothing", nk, cur)
+        if st.get("fault"):
+            weibull_fault(st["fault"], w, dist)         # a rejected call on the same object / module first
+        at("Weibull.gumbel_parameters / weibull2gumbel / Gumbel.fit_from_weibull_parameters, history step %d" % (k + 1))
         try:
             nks = spell(nk, st.get("ntype"))
             gk = w.gumbel_parameters(n=nks)
@@ -616,6 +872,8 @@ def gen_history(rng, loc, scale, shape, n):
         if rng.random() < 0.2:
             n = float(rng.choice([2, 17, 1000, 2437]))
         hist.append(dict(set=st, n=n, ntype=rng.choice(N_TYPES)))
+        if rng.random() < 0.4:
+            hist[-1]["fault"] = rng.choice(BAD_WEIBULL)
     return hist
 
 
@@ -648,11 +906,14 @@ def run(chk):
         chk.count("w2g")
         chk.dist("w2g:n-as-%s:history-%d" % (inp["ntype"] if n == round(n) else "float", len(inp["history"])))
         chk.nontriv(repr(inp))
-        try:
-            fails, g1, g3 = w2g_clauses(inp)
-        except Exception as e:
-            chk.fail("the three entry points give identical Gumbel parameters (must not raise)", inp, "parameters", repr(e))
+        st_, val = guarded(lambda: w2g_clauses(inp, chk.dist))
+        if st_ == "hang":
+            chk.fail(RETURNS, inp, "returns within %g s" % CASE_LIMIT, "no return from: %s" % val)
+            break
+        if st_ == "raised":
+            chk.fail("the three entry points give identical Gumbel parameters (must not raise)", inp, "parameters", repr(val))
             continue
+        fails, g1, g3 = val
         if not (close(m[0], g1[0]) and close(m[1], g1[1]) and close(m[2], g3[0]) and close(m[3], g3[1])):
             chk.disagree("w2g", inp, m, [float(v) for v in g1 + g3])
         for f in fails:
@@ -662,10 +923,11 @@ def run(chk):
         chk.count("w2g")
         chk.nontriv(repr(inp))
         chk.dist("w2g:corpus:history-%d" % len(inp.get("history") or []))
-        try:
-            fails = w2g_clauses(inp)[0]
-        except Exception as e:
-            fails = [("the three entry points give identical Gumbel parameters (must not raise)", "parameters", repr(e))]
+        st_, val = guarded(lambda: w2g_clauses(inp, chk.dist)[0])
+        if st_ == "hang":
+            chk.fail(RETURNS, inp, "returns within %g s" % CASE_LIMIT, "no return from: %s" % val)
+            break
+        fails = val if st_ == "ok" else [("the three entry points give identical Gumbel parameters (must not raise)", "parameters", repr(val))]
         for f in fails:
             chk.fail(f[0], inp, f[1], f[2])
     # entry point on a fitted distribution (sample attached): an explicit n is honoured, the default is the sample size.
@@ -677,13 +939,21 @@ def run(chk):
                          order=rng.choice(["drawn", "ascending", "descending"]), aslist=rng.random() < 0.3,
                          method=rng.choice(["pwm", "pwm", "msm"]), n=float(rng.choice([7, 1000, 12345])),
                          history=[dict(a=rng.choice([0.5, 2.0, 3.0]), b=float(rng.randint(-7, 7)),
-                                       shape_factor=rng.choice([1.0, 1.0, 1.25]), ntype=rng.choice(N_TYPES))
-                                  for _ in range(rng.choice([0, 1, 2]))]))
+                                       shape_factor=rng.choice([1.0, 1.0, 1.25]), ntype=rng.choice(N_TYPES),
+                                       fault=rng.choice((None, None) + BAD_WEIBULL))
+                                  for _ in range(rng.choice([0, 1, 2]))],
+                         faults=rng.sample(BAD_WEIBULL, rng.choice([0, 1, 2]))))
     for inp in fits:
         chk.count("w2g-fitted")
         chk.nontriv(repr(inp))
         chk.dist("fit:%s:%s" % (inp["method"], {None: "continuous", 1: "one-decimal", 0: "integer"}[inp.get("decimals")]))
-        for f in fit_clauses(inp):
+        if HANGS["n"]:
+            break
+        st_, val = guarded(lambda: fit_clauses(inp, chk.dist))
+        if st_ == "hang":
+            chk.fail(RETURNS, inp, "returns within %g s" % CASE_LIMIT, "no return from: %s" % val)
+            break
+        for f in (val if st_ == "ok" else [("the fitted-distribution entry points must not raise", "parameters", repr(val))]):
             chk.fail(f[0], inp, f[1], f[2])
     chk.sample(inp0)
     chk.sample(fits[-1])
@@ -721,10 +991,16 @@ def run(chk):
     for inp in cases:
         chk.count("stats")
         chk.nontriv(repr(inp))
-        try:
-            fails = summary_clauses(inp, chk.dist)
-        except Exception as e:
-            fails = [("the statistics summary and its entry points must not raise", {}, "summary", repr(e))]
+        if HANGS["n"]:                                  # (calls stopped returning: no point in waiting for every further case)
+            chk.dist("stats:skipped-after-hang")
+            continue
+        st_, val = guarded(lambda: summary_clauses(inp, chk.dist))
+        if st_ == "hang":
+            fails = [(RETURNS, {}, "returns within %g s" % CASE_LIMIT, "no return from: %s" % val)]
+        elif st_ == "raised":
+            fails = [("the statistics summary and its entry points must not raise", {}, "summary", repr(val))]
+        else:
+            fails = val
         for f in fails:
             chk.fail(f[0], dict(inp, **f[1]), f[2], f[3])
     chk.sample(cases[-1])
@@ -734,14 +1010,21 @@ def replay(rp):
     inp = rp["input"]
     kind = inp.get("kind") or ("w2g" if "shape" in inp else None)
     if kind == "w2g":
-        fails = [(f[0], f[1], f[2]) for f in w2g_clauses(inp)[0]]
+        call = lambda: [(f[0], f[1], f[2]) for f in w2g_clauses(inp)[0]]
     elif kind == "fit":
-        fails = fit_clauses(inp)
+        call = lambda: fit_clauses(inp)
     elif kind == "summary":
-        fails = [(f[0], f[2], f[3]) for f in summary_clauses(inp)]
+        call = lambda: [(f[0], f[2], f[3]) for f in summary_clauses(inp)]
     else:
         print("unknown input kind; re-run with the run's seed: VERIF_SEED=%s ./check C17 %s" % (inp.get("verif_seed"), rp.get("tier", "quick")))
         return 1
+    st_, val = guarded(call)
+    if st_ == "hang":
+        fails = [(RETURNS, "returns within %g s" % CASE_LIMIT, "no return from: %s" % val)]
+    elif st_ == "raised":
+        fails = [("the entry points of the chain must not raise", "clauses evaluated", repr(val))]
+    else:
+        fails = val
     for f in fails:
         print("FAILS: %s\n   expected %s\n   observed %s" % f)
     print("replay: %d failing clause(s)" % len(fails))
